@@ -32,4 +32,9 @@ PROPS = {
             "level_text": "Bounded symbolic execution + SMT: plane values / fov / aspect / near / far are free reals under the stated preconditions; each corner goal is a rational-function identity proved for all of them, each divisor is proved non-zero, each assertion-failure path is proved unreachable. No loop or value bound.",
             "level_note": "Exact-real semantics. Infinite variants: goal is the exact identity depth(d) = (1-eps) - (2-eps) n/d for every d>0. Trusted: rustc, the symbolic scalar, z3.",
             "bounds": {"constructors": 21, "layouts": 2, "preconditions": "l!=r, b!=t, n!=f (ortho); additionally 0<n, 0<f for frustum; 0<fov<PI, aspect>0 (width,height>0), 0<n<f for perspective"}, "assumptions": COMMON_S},
+    "C09": {"engines": "S",
+            "technique": "symbolic execution of the real look_at/model_look_at/basis builders at an exact-real scalar (two sqrt atoms from normalized()); orthonormality, det=+1, eye/target/up placement, model*view=I, basis round trip as polynomial goals over the radicals decided by z3 (QF_NRA)",
+            "level_text": "Bounded symbolic execution + SMT: eye, target, up (9 free reals, eye!=target, up not parallel to the view direction) and origin/basis vectors are symbolic; each goal is proved for all of them; every divisor is proved non-zero under the precondition. No loop or value bound.",
+            "level_note": "Exact-real semantics; sqrt via r>=0, r^2=a. Orthonormal bases through the quaternion parametrisation and, separately, under the six orthonormality equations as hypotheses. Trusted: rustc, the symbolic scalar, z3.",
+            "bounds": {"layouts": 2, "handedness": ["lh", "rh"]}, "assumptions": COMMON_S},
 }
